@@ -101,6 +101,7 @@ def build_bundle(design: dict, bname: str, built: Built) -> h.Bundle:
                 body[name] = h.Signal(width=width, src=roles.get(kind[1]), dest=roles.get(kind[2]))
             else:
                 body[name] = {"sig": h.Signal, "port": h.Port, "in": h.Input, "out": h.Output, "inout": h.Inout}[kind](width=width)
+            body[name] = _leaf_via(bd, body[name])
         for sub in bd["subs"]:
             subdef = build_bundle(design, sub[1], built)
             subrole = built.roles[sub[1]].get(sub[3]) if len(sub) > 3 and sub[3] else None
@@ -125,13 +126,25 @@ def build_bundle(design: dict, bname: str, built: Built) -> h.Bundle:
             sig = {"in": h.Input, "out": h.Output, "inout": h.Inout}[kind](width=width)
         else:  # ["role", src, dest]
             sig = h.Signal(width=width, src=roles.get(kind[1]), dest=roles.get(kind[2]))
-        b.add(sig, name=name)
+        b.add(_leaf_via(bd, sig), name=name)
     for sub in bd["subs"]:
         subdef = build_bundle(design, sub[1], built)
         subrole = built.roles[sub[1]].get(sub[3]) if len(sub) > 3 and sub[3] else None
         b.add(h.BundleInstance(of=subdef, flipped=bool(sub[2]), role=subrole), name=sub[0])
     built.bundles[bname] = b
     return b
+
+
+def _leaf_via(bd: dict, sig):
+    """`leaves_via`: the way the designer made the bundle's leaves - by a plain call, as one of `n * h.Signal(...)`, or by copy()."""
+    via = bd.get("leaves_via")
+    if via == "mult":
+        return (2 * sig)[1]
+    if via == "copy":
+        import copy as _copy
+
+        return _copy.copy(sig)
+    return sig
 
 
 class ModBuilder:
